@@ -37,6 +37,21 @@ CLAIMED = {
             'For each generated program the edits alone are run lazily to obtain reference bytes; then two drawn schedules insert force_consistency, get_record/list_children/walk/full_path_from_dirrecord/file_mode and extra write_fp calls at drawn positions, in lazy or always-consistent mode, and the final image must be byte-identical. After force_consistency the extent and length reported by get_record for every path must be where the next written image holds that file / directory.',
             'Random/uuid/time draws are pinned per op serial so inserted calls cannot shift them. Programs whose plain run fails are C01 domain and only counted.',
             'DESIGN.md section 3, C06'),
+    'C03': ('exploration',
+            'property-based testing (Hypothesis) with an independent decoder as oracle: generated images validated by a from-the-standard ECMA-119 reader and compared with the library API view',
+            'Every image mastered from a generated program is decoded by vf/indep/iso9660.py (no pycdlib code): descriptor set + terminator, both-endian agreement of every number, record packing inside sectors, byte order of identifiers, "."/".." extents and sizes, directory sizes, L and M path tables rebuilt from the directory hierarchy in ECMA-119 6.9.1 order with parent numbers; the recovered ISO9660 and Joliet trees with contents must equal what the library API lists for the reopened image.',
+            'The independent reader is my reading of ECMA-119 (checked by image-mutation tests). Byte order of identifiers is required; ECMA-119 9.3 ordering differences are a recorded known finding.',
+            'DESIGN.md section 3, C03'),
+    'C04': ('exploration',
+            'property-based testing (Hypothesis) with an invariant over the allocation map decoded by independent readers, plus a write log of the mastering pass',
+            'For each generated history (with and without reopen generations) the image is mastered through a write-recording file; the independent ISO9660/SUSP/UDF readers give the allocation map; checked: no two distinct objects overlap, everything inside the declared volume size, all descriptors agree on it, image length == declared size (+ cylinder padding on hybrids), names share data sectors iff the reference model says they are links, no byte is written twice (except the boot-info-table patch and final pad), no unused tail sector / unowned interior sector, and the library\'s own PYCDLIB_TRACK_WRITES detector stays silent (half of the cases).',
+            'Exact-size clause is an interpretation (see DESIGN.md C04). Structural reserves (UDF bridge gap, version descriptor sector, path-table reservation) are allowed.',
+            'DESIGN.md section 3, C04'),
+    'C16': ('exploration',
+            'stateful / model-based property testing (Hypothesis): generated stream-operation programs (and a RuleBasedStateMachine) shadowed by io.BytesIO',
+            'Programs of open/read/readinto/readall/seek/tell/close/extract/query ops over 4-8 files (parsed from an image, added but unwritten, shared backing file, one > 4 GiB two-extent file) are interpreted against PyCdlibIO and an io.BytesIO shadow per stream; every return value and position must agree, extraction output must equal the content, and reads may only touch image bytes inside the file being read (read log of the image file).',
+            'Negative resulting seek positions, closed streams and boot-info-table files are excluded by construction (documented or unstated behaviour). Single-threaded interleavings only.',
+            'DESIGN.md section 3, C16'),
 }
 
 NOT_YET = 'check not built yet in this session (work in progress; see DESIGN.md section 9 for the order)'
